@@ -52,14 +52,17 @@ Section C10.
   Theorem v2_starts_from_unconflicted sets auth_events :
     resolve_new false sets auth_events = mkR [] [] \/
     exists authmap control others unconflicted,
-      Permutation unconflicted (power_order shP priv cl ud authmap None (snd (split_conflicted shG false sets))) /\
+      unconflicted = power_order shP priv cl ud authmap None (dedup_events (snd (split_conflicted shG false sets))) /\
       resolve_new false sets auth_events
       = tail authmap (mkR (apply_events [] unconflicted) []) control others unconflicted.
   Proof.
     unfold resolve_v2_new.
+    set (X := match fst (split_conflicted shG false sets), snd (split_conflicted shG false sets), auth_events with
+              | [], [], [] => true | _, _, _ => false end).
     destruct (fst (split_conflicted shG false sets)) eqn:E1;
       destruct (snd (split_conflicted shG false sets)) eqn:E2;
-      destruct auth_events eqn:E3; try (left; reflexivity); right; do 4 eexists; (split; [reflexivity|reflexivity]).
+      destruct auth_events eqn:E3; try (left; reflexivity); right;
+      eexists; eexists; eexists; eexists; (split; [reflexivity|]); unfold r_apply; reflexivity.
   Qed.
 
   (* the unconflicted events are applied again after all conflicted events *)
@@ -154,10 +157,10 @@ Proof. intro P. apply auth_difference_new_is_spec. exact P. Qed.
 (* v2.1: the conflicted subgraph the library adds to the auth difference (path enumeration from
    every conflicted event of every state set, DFS with the exploration path) is exactly the
    specification's: the auth events lying on an auth path from a conflicted event of a state
-   set to a conflicted event. For an acyclic auth relation; the state-set events are the auth
-   map's events of their IDs. *)
-Theorem conflicted_subgraph_is_spec authmap conflicted sets (rank : bytes -> nat) x :
-  (forall a b, auth_step authmap a b -> (rank (e_id b) < rank (e_id a))%nat) ->
+   set to a conflicted event. (After the F81 repair the library computes it with two walks that
+   visit every event once; no acyclicity premise is needed any more.) The state-set events are
+   the auth map's events of their IDs. *)
+Theorem conflicted_subgraph_is_spec authmap conflicted sets x :
   (forall s o y, In s sets -> In o s -> find_event (e_id o) authmap = Some y -> y = o) ->
   (In x (complete_subgraph authmap conflicted sets) <-> spec_conflicted_subgraph authmap conflicted sets x).
 Proof. apply conflicted_subgraph_spec. Qed.
@@ -192,28 +195,25 @@ Proof. apply iterative_auth_spec. Qed.
 
 
 (* v2.1 auth difference with the conflicted subgraph, as a set *)
-Theorem auth_difference_v21_is_spec (shE : list event -> list event) authmap conflicted sets (rank : bytes -> nat) x :
+Theorem auth_difference_v21_is_spec (shE : list event -> list event) authmap conflicted sets x :
   (forall l, Permutation (shE l) l) ->
-  (forall a b, auth_step authmap a b -> (rank (e_id b) < rank (e_id a))%nat) ->
   (forall s o y, In s sets -> In o s -> find_event (e_id o) authmap = Some y -> y = o) ->
   (In x (auth_difference_new shE true authmap conflicted sets) <->
    spec_auth_difference authmap sets x \/ spec_conflicted_subgraph authmap conflicted sets x).
 Proof. apply auth_difference_v21_spec. Qed.
 
-(* The composition for v2.1 (resolve_v2_new with v21 = true): there are partial states st1, st2
-   such that every stage is the specification's stage and the driver chains them as specified:
-   the unconflicted events are the specification's; the full conflicted set is the conflicted
-   events + auth difference + conflicted subgraph; the power set is its closure (r5); the
-   iterative auth checks start from the EMPTY state, run over the power events in the library's
-   power order, then over the remaining events in mainline order, each event judged against the
-   specification's auth events; the unconflicted state is re-applied last.
-   PARTIAL in two named respects (both tied to the code by the correspondence):
-   (1) missing lemma conflicted_is_spec: the events reported CONFLICTED by the split are left as
-       the model computes them (split_is_spec characterises the unconflicted ones);
-   (2) missing lemma power_order_with_repeats_is_spec: the control list carries the repeats
-       fullControlSet produces, and the position of events whose in-degree never reaches zero
-       because of a repeated descendant (6.2 r3) is defined by the library's algorithm only; for
-       a repeat-free list the order is the specification's (power_order_is_library_order). *)
+(* The composition for v2.1 (resolve_v2_new with v21 = true), after the repairs F76 and F77: there
+   are partial states st1, st2 such that every stage is the specification's stage and the driver
+   chains them as specified: the unconflicted events are the specification's; the full conflicted
+   set is the conflicted events + auth difference + conflicted subgraph, with no exception for
+   events of the unconflicted state (F77); the power set is its closure (r5); the DISTINCT power
+   events are ordered topologically (F76: repeated entries are dropped, so r3 never applies to an
+   acyclic history); the iterative auth checks start from the EMPTY state, run over the power
+   events in that order, then over the remaining events in mainline order, each event judged
+   against the specification's auth events; the unconflicted state is re-applied last.
+   PARTIAL in one named respect: missing lemma conflicted_is_spec - the events reported CONFLICTED
+   by the split are left as the model computes them (split_is_spec characterises the unconflicted
+   ones). *)
 Theorem resolve_v2_refines_spec_partial
   allowed rejected (shE : list event -> list event) (shP : list pwrap -> list pwrap) (shG : groups -> groups)
   priv cl ud sets auth_events (rank : bytes -> nat) :
@@ -225,9 +225,9 @@ Theorem resolve_v2_refines_spec_partial
   let unconflicted := snd (split_conflicted shG false sets) in
   let cm := dedup_events conflicted in
   let full := conflicted ++ auth_difference_new shE true authmap conflicted sets in
-  let control := control_events cm unconflicted full in
-  let others := other_events unconflicted full control in
-  (forall a b, auth_step authmap a b -> (rank (e_id b) < rank (e_id a))%nat) ->
+  let control := control_events cm [] full in
+  let others := other_events [] full control in
+  acyclic e_auth (dedup_events control) ->
   (forall a b, auth_step cm a b -> (rank (e_id b) < rank (e_id a))%nat) ->
   (forall s o y, In s sets -> In o s -> find_event (e_id o) authmap = Some y -> y = o) ->
   (forall e, In e (concat sets) \/ In e auth_events -> needs_ok e) ->
@@ -235,13 +235,28 @@ Theorem resolve_v2_refines_spec_partial
     (forall e, In e unconflicted <-> In e (dedup_events (concat sets)) /\ spec_unconflicted sets e) /\
     (forall x, In x full <-> In x conflicted \/ spec_auth_difference authmap sets x
                              \/ spec_conflicted_subgraph authmap conflicted sets x) /\
-    (forall x, In x control <-> spec_power_set cm unconflicted full x) /\
-    (forall x, In x others <-> In x full /\ has_event (e_id x) unconflicted = false /\
-                               is_control_event x = false /\ has_event (e_id x) control = false) /\
-    spec_iterative_auth allowed rejected authmap [] (power_order shP priv cl ud authmap None control) st1 /\
+    (forall x, In x control <-> spec_power_set cm [] full x) /\
+    (forall x, In x others <-> In x full /\ is_control_event x = false /\ has_event (e_id x) control = false) /\
+    topological_permutation e_auth (dedup_events control)
+                            (power_order shP priv cl ud authmap None (dedup_events control)) /\
+    spec_iterative_auth allowed rejected authmap [] (power_order shP priv cl ud authmap None (dedup_events control)) st1 /\
     spec_iterative_auth allowed rejected authmap st1 (mainline_order authmap (smap_get st1 (t_power, [])) others) st2 /\
     r_state (resolve_v2_new allowed rejected shE shP shG priv cl ud true sets auth_events) = apply_events st2 unconflicted.
 Proof. intros. apply resolve_v21_stages with (rank := rank); assumption. Qed.
+
+
+(* F76: what the resolvers hand to the power ordering is the list of DISTINCT events
+   (reverseTopologicalOrdering drops repeated entries first), so the statement needs no
+   premise on the list: whatever the control list looks like - an event that is both conflicted
+   and in the auth difference, events fullControlSet pulled in twice - the order is a
+   topological permutation of its distinct events. (The former premise NoDup (ids_of l) of
+   power_order_is_topological was exactly the defect: the library called the ordering on lists
+   with repeats, where ancestors of a repeated event came out as strays.) *)
+Theorem resolver_power_order_is_topological (shP : list pwrap -> list pwrap) priv cl ud authmap create l :
+  (forall x, Permutation (shP x) x) ->
+  acyclic e_auth (dedup_events l) ->
+  topological_permutation e_auth (dedup_events l) (power_order shP priv cl ud authmap create (dedup_events l)).
+Proof. intros P A. apply power_order_topological; [exact P|apply dedup_nodup|exact A]. Qed.
 
 (* v1 (DESIGN.md 6.2 r7): the model of ResolveStateConflicts returns exactly the list the
    per-key specification StateRes/V1Spec.v defines - per conflicted key, in the order create,
@@ -250,13 +265,12 @@ Proof. intros. apply resolve_v21_stages with (rank := rank); assumption. Qed.
    rules against the state resolved so far plus the current candidate, results of a type
    registered only when the type is done; every other key: the newest candidate that passes
    against the final auth state, else the oldest. Preconditions: the conflicted events are
-   distinct state events whose sort key identifies them, and (as ResolveStateConflicts
-   documents) none of the auth events sits under a conflicted key. *)
+   distinct state events whose sort key identifies them. (No condition on the auth events any
+   more: after the F78 repair an auth event under a conflicted key is put back after its block.) *)
 Theorem v1_resolves_per_spec allowed conflicted auth_events :
   NoDup (ids_of conflicted) ->
   (forall a b, In a conflicted -> In b conflicted -> v1_cmp a b = Eq -> a = b) ->
   (forall e, In e conflicted -> e_skey e <> None) ->
-  auth_events_unconflicted conflicted auth_events = true ->
   v_result (resolve_v1 allowed conflicted auth_events) = spec_resolve_v1 allowed conflicted auth_events.
 Proof. apply resolve_v1_is_spec. Qed.
 
@@ -301,6 +315,7 @@ Print Assumptions iterative_auth_shows_spec_events.
 Print Assumptions iterative_auth_is_spec.
 Print Assumptions auth_difference_v21_is_spec.
 Print Assumptions resolve_v2_refines_spec_partial.
+Print Assumptions resolver_power_order_is_topological.
 Print Assumptions v1_resolves_per_spec.
 Print Assumptions v1_returns_conflicted_events.
 Print Assumptions result_is_a_state_map.
